@@ -150,3 +150,13 @@ Theorem C19_sum_products_order_model :
     exists cs, scc (ntgraph nts rules) = Some cs /\ sp_order_check (nts, rules, cs, nts) = 0.
 Proof. exact sp_order_check_model. Qed.
 Print Assumptions C19_sum_products_order_model.
+
+(** ... and verdict 0 orders TRANSITIVE dependencies too: whatever a nonterminal reaches in the
+    nonterminal graph of the grammar at the time of the call lies in its block or an earlier one. *)
+Theorem C19_sum_products_order_transitive :
+  forall nts rules blocks keys,
+    sp_order_check (nts, rules, blocks, keys) = 0 ->
+    forall l1 c l2 x y, blocks = l1 ++ c :: l2 -> In x c -> path (ntgraph nts rules) x y ->
+      In y c \/ In y (concat l1).
+Proof. exact sp_order_check_transitive. Qed.
+Print Assumptions C19_sum_products_order_transitive.
